@@ -59,9 +59,9 @@ CHECKS = {
         note="Names starting with '__', type/Enum API attribute names, callable values and NaN are excluded because the property's wording does not fix their behaviour."),
     "C19": dict(
         category="fault_enumeration", design_ref="DESIGN.md 5/C19",
-        technique="deterministic simulation with fault injection at the installation seam: each run imports the library freshly under one of the 4 presence combinations of fake sgio/iscsi bindings (absence = injected fault: not installed, or installed but failing to load), then drives init_device/constructors with device strings; oracle over the seam history (no open/stat/connect before a refusal)",
+        technique="deterministic simulation with fault injection at the installation seam: each run imports the library freshly under one of the 4 presence combinations of fake sgio/iscsi bindings (absence = injected fault), then drives init_device/constructors with device strings; oracle over the seam history (no open/stat/connect before a refusal)",
         text="The four binding configurations x 17 device strings x rw x {init_device, SCSIDevice, ISCSIDevice} x initiator-name variants are enumerated completely in both tiers and random strings are added; every module under pyscsi is imported, every command class built/encoded/decoded and the facade driven over plain device objects of every command-set family in each configuration. For refused requests the seam log must be empty; for accepted ones it must show exactly one open/connect on exactly the requested path/URL with the requested mode and initiator name.",
-        note="Absence is simulated with sys.modules[name]=None (ModuleNotFoundError) or a meta-path finder raising ImportError (unloadable extension); the real bindings' behaviour for malformed paths/URLs is stubbed leniently."),
+        note="Absence is simulated with sys.modules[name]=None (ModuleNotFoundError); a binding that is installed but fails to load is outside the property's four combinations and not judged; the real bindings' behaviour for malformed paths/URLs is stubbed leniently."),
 }
 
 NOT_APPLICABLE = {
